@@ -46,6 +46,8 @@ V2_POOL = [
     "x nodomain 1 n.html -",
     "y z:w:v 1 n.html#$ D",
     "é std:label 1 l.html#é Ünï",
+    "mod std:label -1 l.html#mod Module label",
+    "mod c:macro 1 c.html#c.mod -",
     "same py:class 1 c.html#$ same",
     "two words std:label -1 t.html#tw two words",
 ]
